@@ -147,6 +147,38 @@ def check(run):
                                   "cfg": cfg, "plan": plan, "adocs": adocs})
             finally:
                 w.close()
+    # a segment without any postings (stored values only) between ordinary ones, loose and compound
+    for si in range(1 if quick else 4):
+        keys = ["s%d" % i for i in range(9)]
+        adocs = dict((k, cworld.rand_adoc(rng, k)) for k in keys)
+        for k in keys[3:6]:
+            adocs[k]["t"], adocs[k]["c"] = {}, {}
+            adocs[k]["s"] = dict((f, v) for f, v in adocs[k]["s"].items() if f == "blob") or {"blob": 2}
+        plan = [("commit", keys[:3], {"merge": False}), ("commit", keys[3:6], {"merge": False, "storedonly": True}),
+                ("commit", keys[6:], {"merge": False})]
+        for cfg in ({"storage": "file", "mmap": True, "compound": False}, {"storage": "file", "mmap": False, "compound": True},
+                    {"storage": "file", "copy_to_ram": True, "compound": False},
+                    {"storage": "file", "copy_to_ram": True, "compound": True}, {"storage": "ram", "compound": False}):
+            w = cworld.CWorld(cfg, variant=si)
+            try:
+                try:
+                    w.run(adocs, plan)
+                    rd = w.reader()
+                    try:
+                        idx = cworld.abstract_index(rd, adocs)
+                        obs = cworld.dump(rd, idx, w.schema, rng=rng, maxterms=5, plan=plan)
+                        run.count(len(obs))
+                    finally:
+                        rd.close()
+                    cases.append({"idx": idx, "obs": obs, "cfg": dict(cfg, scenario="segment without postings"),
+                                  "plan": plan, "adocs": adocs, "variant": si})
+                except Exception as ex:
+                    cases.append({"idx": {"docs": []}, "obs": [{"kind": "error", "path": "building / opening the index",
+                                                                "err": type(ex).__name__, "msg": str(ex)[:160],
+                                                                "where": content.where(ex)}],
+                                  "cfg": dict(cfg, scenario="segment without postings"), "plan": plan, "adocs": adocs})
+            finally:
+                w.close()
     rejects = content.judge(run, cases)
     content.report(run, "c18", cases, rejects)
     run.extra["configurations"] = len(cases)
